@@ -416,6 +416,13 @@ def directed():
     rng = random.Random(1414)
     for _ in range(160):
         yield rl.gen_labels(rng)
+    # integer steps absorbed by the other operand (an infinity, a magnitude beyond 2**53 / 2**24) and no run boundary in common: the results of
+    # neighbouring runs are equal and must be one run
+    for dtA_, dtB_, big_ in (("int64", "float64", float("inf")), ("int64", "float64", 2.0 ** 60), ("int32", "float32", 2.0 ** 30), ("uint8", "float64", float("-inf"))):
+        for uf_ in ("add", "subtract"):
+            ia_, fb_ = [1, 1, 2, 2, 3, 3, 4], [big_] * 3 + [7.0] * 4
+            yield mk_case(dtA_, ia_, "ufunc2", vals2=fb_, dtype2=dtB_, uf=uf_, align="indep")
+            yield mk_case(dtB_, fb_, "ufunc2", vals2=ia_, dtype2=dtA_, uf=uf_, align="indep")
     for dtype in rl.DT_RL:
         for style in rl.STYLES:
             for kind in KINDS:
